@@ -14,11 +14,14 @@
 (***************************************************************************)
 EXTENDS Naturals, Sequences, SequencesExt, FiniteSets
 
-LowerSeq == <<"a","b","c","d","e","f","g","h","i","j","k","l","m","n","o","p","q","r","s","t","u","v","w","x","y","z">>
-UpperSeq == <<"A","B","C","D","E","F","G","H","I","J","K","L","M","N","O","P","Q","R","S","T","U","V","W","X","Y","Z">>
+(* the ASCII letters, and one cased letter outside ASCII (legal in Rust identifiers): convert_case treats it like any *)
+(* other letter (Unicode case mapping), serde's rename rule sees that it is upper case but lowers ASCII letters only  *)
+LowerSeq == <<"a","b","c","d","e","f","g","h","i","j","k","l","m","n","o","p","q","r","s","t","u","v","w","x","y","z","é">>
+UpperSeq == <<"A","B","C","D","E","F","G","H","I","J","K","L","M","N","O","P","Q","R","S","T","U","V","W","X","Y","Z","É">>
 DigitSeq == <<"0","1","2","3","4","5","6","7","8","9">>
-Lower == {LowerSeq[i] : i \in 1..26}
-Upper == {UpperSeq[i] : i \in 1..26}
+Lower == {LowerSeq[i] : i \in 1..27}
+Upper == {UpperSeq[i] : i \in 1..27}
+AsciiLo(c) == IF c \in Upper /\ c # "É" THEN LowerSeq[CHOOSE i \in 1..26 : UpperSeq[i] = c] ELSE c
 Digit == {DigitSeq[i] : i \in 1..10}
 
 IndexIn(s, c) == CHOOSE i \in 1..Len(s) : s[i] = c
@@ -28,7 +31,8 @@ UpAll(w) == [i \in 1..Len(w) |-> Up(w[i])]
 LoAll(w) == [i \in 1..Len(w) |-> Lo(w[i])]
 
 (* byte order of the characters that can occur in identifiers *)
-Rank(c) == IF c \in Digit THEN IndexIn(DigitSeq, c)                 \* '0'..'9'  48..57
+Rank(c) == IF c = "É" THEN 190 ELSE IF c = "é" THEN 200            \* two-byte UTF-8 sequences (C3 89 < C3 A9): above all of ASCII
+           ELSE IF c \in Digit THEN IndexIn(DigitSeq, c)                 \* '0'..'9'  48..57
            ELSE IF c \in Upper THEN 20 + IndexIn(UpperSeq, c)       \* 'A'..'Z'  65..90
            ELSE IF c = "_" THEN 50                                  \* '_'       95
            ELSE 60 + IndexIn(LowerSeq, c)                           \* 'a'..'z'  97..122
@@ -81,7 +85,8 @@ CcSnake(n)    == JoinWith("_", [i \in 1..Len(Words(n)) |-> LoAll(Words(n)[i])])
 UpperSnake(n) == JoinWith("_", [i \in 1..Len(Words(n)) |-> UpAll(Words(n)[i])])
 
 (* serde_derive::internals::case::RenameRule::SnakeCase.apply_to_variant *)
-SerdeSnake(v) == Concat([i \in 1..Len(v) |-> IF i > 1 /\ v[i] \in Upper THEN <<"_", Lo(v[i])>> ELSE <<Lo(v[i])>>])
+(* (`ch.is_uppercase()` is Unicode-aware, `ch.to_ascii_lowercase()` is not) *)
+SerdeSnake(v) == Concat([i \in 1..Len(v) |-> IF i > 1 /\ v[i] \in Upper THEN <<"_", AsciiLo(v[i])>> ELSE <<AsciiLo(v[i])>>])
 
 VariantDef(n) == UpperCamel(n)              \* the enum variant generated for method n
 WireDef(n)    == SerdeSnake(VariantDef(n))  \* the JSON key it is sent under
